@@ -55,10 +55,10 @@ func BuildSTACK(e EPConfig, reg *Registry) *STACK.Config {
 	c := &STACK.Config{
 		Time:               func() time.Time { return e.Clock() },
 		Certificates:       CertsSTACK(e.Ident),
-		NextProtos:         e.ALPN,
+		NextProtos:         copyStrings(e.ALPN),
 		ServerName:         e.ServerName,
 		InsecureSkipVerify: e.Insecure,
-		CipherSuites:       e.Suites,
+		CipherSuites:       copyU16(e.Suites),
 		ClientAuth:         STACK.ClientAuthType(e.Auth),
 		MinVersion:         e.MinVersion,
 		MaxVersion:         e.MaxVersion,
